@@ -196,7 +196,7 @@ theorem filter_not_contains_singleton (nd i : Nat) (hi : i < nd) :
   by_cases h : x = i <;> simp [bne, h]
 
 /-- moving one axis: the same order as `rollaxis`, a destination past the end meaning "last" -/
-theorem moveaxisOrder_single (nd i j : Nat) (hi : i < nd) :
+theorem moveaxisOrder_one (nd i j : Nat) (hi : i < nd) :
     Arr.moveaxisOrder nd [i] [j] = Arr.rollaxisOrder nd i (min j (nd - 1)) := by
   unfold Arr.moveaxisOrder Arr.rollaxisOrder
   simp only [List.zip_cons_cons, List.zip_nil_right, List.mergeSort_singleton, List.foldl_cons, List.foldl_nil]
